@@ -386,6 +386,18 @@ package writer
 //@   props C01
 //@   privatecaptures
 //@   ensures [index-advanced-once-per-element] implies(*finalErr == nil, *i == old(*i) + 1)
+//@   site call parseSingleString #2:
+//@     assert [raw-bytes-stored-only-without-escapes] forall(k, 0, len(value), value[k] != 92)
+//@ end
+
+// C01 (the value returned is the value sent): a JSON string is stored as the
+// bytes between its quotes only when those bytes contain no escape sequence;
+// any backslash (at any position, the first byte included) sends the value
+// through jsonparser.Unescape first.  Same rule in the array flattener above.
+//@ func ParseRawJsonObject$1
+//@   props C01
+//@   site call parseSingleString #2:
+//@     assert [raw-bytes-stored-only-without-escapes] forall(k, 0, len(value), value[k] != 92)
 //@ end
 
 // C03 (persistent-query results equal a raw search): the ingest-time matcher
